@@ -34,7 +34,7 @@ BUDGET = {
 }
 
 SAMPLE_KINDS = ['ok_mef', 'ok_mef_wide', 'ok_rfi', 'ok_one', 'ok_400', 'ok_float', 'ok_float2', 'missing', 'missing_isdir', 'missing_notdir', 'missing_case', 'small', 'gf_neg', 'gf_big', 'gf_just_above', 'gf_just_below', 'bad_units', 'beads_failed',
-                'no_curve', 'other_instrument', 'other_instrument_lc', 'other_amp', 'other_volt', 'other_volt0', 'bad_units_sub']
+                'no_curve', 'other_instrument', 'other_instrument_lc', 'other_amp', 'other_amp_novolt', 'other_volt', 'other_volt0', 'bad_units_sub']
 HEALTHY = ('ok_mef', 'ok_mef_wide', 'ok_rfi', 'ok_one', 'ok_400', 'ok_float', 'ok_float2')
 # further healthy rows whose *files* are unusual; they are paired with every healthy kind (both orders) in the quick
 # tier and with every kind in the thorough tier
@@ -72,6 +72,7 @@ def fixture(seed):
                                 extra_kw=[['OPERATOR', 'Jos\xe9 N\xfa\xf1ez'], ['$SRC', '5 \xb5m beads-free medium']]),     # ISO-8859-1 text
         'cells_novolt.fcs': dict(kind='cells', instrument='I1', seed=seed + 17, n=515, datatype='I', no_volt=True),
         'cells_lin.fcs': dict(kind='cells', instrument='I1', seed=seed + 6, n=500, datatype='I', amp='lin'),
+        'cells_lin_novolt.fcs': dict(kind='cells', instrument='I1', seed=seed + 18, n=500, datatype='I', amp='lin', no_volt=True),
         'cells_i2.fcs': dict(kind='cells', instrument='I2', seed=seed + 7, n=500, datatype='I'),
         'beads1.fcs': dict(kind='beads', instrument='I1', seed=seed + 8),
         'beads_small.fcs': dict(kind='beads', instrument='I1', seed=seed + 9, n_keep=390),
@@ -135,6 +136,8 @@ def sample_row(kind, sid):
         r.update(units={'FL1-H': 'Chan', 'FL2-H': 'F'})                      # fragments of the known unit names are no units
     elif kind == 'other_amp':
         r.update(file='cells_lin.fcs')
+    elif kind == 'other_amp_novolt':
+        r.update(file='cells_lin_novolt.fcs')     # another amplifier type than the beads file's, and no voltages recorded
     elif kind == 'other_volt':
         r.update(file='cells_volt.fcs')
     elif kind == 'other_volt0':
